@@ -71,6 +71,12 @@ type progState struct {
 	Runnable bool
 	obs      map[int][]string // sid -> observation lines
 	nCalls   int
+
+	// modifier mode (programs with modsubset=1)
+	ModGen      bool   // cff -genmode=modifier wrote a file
+	ModCompiles bool   // ... and it compiles
+	ModErr      string // why not
+	modObs      map[int][]string
 }
 
 type batch struct {
@@ -148,7 +154,7 @@ func run(c *config) error {
 	}
 	states := make([]*progState, len(progs))
 	for i, p := range progs {
-		states[i] = &progState{P: p, Known: strings.HasPrefix(p.Stream, "known:"), obs: map[int][]string{}}
+		states[i] = &progState{P: p, Known: strings.HasPrefix(p.Stream, "known:"), obs: map[int][]string{}, modObs: map[int][]string{}}
 	}
 	batches := makeBatches(c, states)
 	progress("%d programs in %d packages", len(states), len(batches))
@@ -179,6 +185,13 @@ func run(c *config) error {
 			}
 		}
 	}
+	for _, st := range states {
+		if proggen.NeedsCur(st.P) {
+			for _, sc := range st.P.Scenarios {
+				sc.Execs = 1
+			}
+		}
+	}
 	pl.buildAndRun(batches)
 	progress("scenarios executed")
 
@@ -190,7 +203,7 @@ func run(c *config) error {
 func generate(c *config) []*ps.Program {
 	g := proggen.New(c.seed)
 	var progs []*ps.Program
-	mutIdx := 0
+	mutIdx, parMutIdx := 0, 0
 	for pid := 1; pid <= c.programs; pid++ {
 		isPar := g.R.Intn(100) < 30
 		if c.flowsOnly {
@@ -201,14 +214,18 @@ func generate(c *config) []*ps.Program {
 		}
 		var p *ps.Program
 		switch {
-		case isPar && g.R.Intn(100) < 15:
-			p = g.MutatedParallel(pid)
+		case isPar && g.R.Intn(100) < 22:
+			kinds := []string{"coe-end", "slice-unassignable", "map-unassignable"}
+			p = g.MutatedParallelKind(pid, kinds[parMutIdx%len(kinds)])
+			parMutIdx++
 		case isPar:
 			p = g.ParallelProgram(pid)
 		case g.R.Intn(100) < 35:
 			kind := proggen.MutKinds[mutIdx%len(proggen.MutKinds)]
 			mutIdx++
 			p = g.MutatedFlow(pid, kind)
+		case g.R.Intn(100) < 22:
+			p = g.PlainFlow(pid)
 		default:
 			p = g.WellFormedFlow(pid)
 		}
@@ -267,7 +284,7 @@ func writeOutput(c *config, states []*progState, elapsed time.Duration) error {
 	fmt.Fprintf(w, "progrun version=1 seed=%d programs=%d repo=%s defaultconc=%d replay=%d\n",
 		c.seed, c.programs, c.repo, progoracle.DefaultConc, b2i(c.replay != ""))
 	for _, t := range ps.Types {
-		emit("T %d shape=%s home=%s comparable=%d", t.ID, t.Shape, t.Home, b2i(t.Comparable))
+		emit("T %d shape=%s home=%s comparable=%d flowvalue=%d", t.ID, t.Shape, t.Home, b2i(t.Comparable), b2i(t.ID < ps.NumTypes))
 	}
 
 	nX, nXK := 0, 0
@@ -292,6 +309,7 @@ func writeOutput(c *config, states []*progState, elapsed time.Duration) error {
 
 	streams := map[string]int{}
 	accept, reject, scenarios, calls := 0, 0, 0, 0
+	modProgs, modScen := 0, 0
 	forms, shapes, opts, diags := map[string]int{}, map[string]int{}, map[string]int{}, map[string]int{}
 	for _, st := range states {
 		p := st.P
@@ -299,6 +317,9 @@ func writeOutput(c *config, states []*progState, elapsed time.Duration) error {
 			emit("%s", l)
 		}
 		streams[p.Stream]++
+		if p.ModSub {
+			modProgs++
+		}
 		coverage(p, forms, shapes, opts)
 		diag := "-"
 		if len(st.Diag) > 0 {
@@ -320,8 +341,12 @@ func writeOutput(c *config, states []*progState, elapsed time.Duration) error {
 			p.PID, verdict, st.Exit, diag, b2i(st.ToolPanic), b2i(st.FileNamed), b2i(st.GenWritten))
 		report(st, "-", checkAccept(st))
 		if st.HaveG {
-			emit("G %d parses=%d typechecks=%d directives_left=%d astdiff=%s deterministic=%d sourcemap_same=%s",
-				p.PID, b2i(st.Parses), b2i(st.Typechecks), st.DirLeft, st.AstDiff, b2i(st.Deterministic), st.SourceMapSame)
+			mc := "na"
+			if p.ModSub {
+				mc = fmt.Sprint(b2i(st.ModCompiles))
+			}
+			emit("G %d parses=%d typechecks=%d directives_left=%d astdiff=%s deterministic=%d sourcemap_same=%s modifier_compiles=%s",
+				p.PID, b2i(st.Parses), b2i(st.Typechecks), st.DirLeft, st.AstDiff, b2i(st.Deterministic), st.SourceMapSame, mc)
 			report(st, "-", checkStatic(st))
 		}
 		if !st.Runnable {
@@ -333,9 +358,28 @@ func writeOutput(c *config, states []*progState, elapsed time.Duration) error {
 			for _, l := range lines {
 				emit("O %d %d %s", p.PID, sc.SID, l)
 			}
+			o := progoracle.ParseObs(lines)
+			var mms []progoracle.Mismatch
+			if p.ModSub && sc.Cancel == "none" {
+				modScen++
+				if !st.ModCompiles {
+					emit("O %d %d modifier ret=na results=na calls=na compiled=0", p.PID, sc.SID)
+				} else {
+					mo := progoracle.ParseObs(st.modObs[sc.SID])
+					r, rs, cs := progoracle.ModifierLine(sc, o, mo)
+					emit("O %d %d modifier ret=%s results=%s calls=%s compiled=1", p.PID, sc.SID, r, rs, cs)
+					if r != "same" || rs != "same" || cs != "same" {
+						msg := fmt.Sprintf("ret=%s_results=%s_calls=%s", r, rs, cs)
+						if mo.Crash != "" {
+							msg += "_" + strings.Join(strings.Fields(mo.Crash), "_")
+						}
+						mms = append(mms, progoracle.Mismatch{Prop: "modifier", Msg: msg})
+					}
+					mms = append(mms, progoracle.CheckModifier(p, sc, mo)...)
+				}
+			}
 			emit("E %d %d", p.PID, sc.SID)
 			scenarios++
-			o := progoracle.ParseObs(lines)
 			calls += len(o.Calls)
 			var ms []progoracle.Mismatch
 			if p.Kind == "flow" {
@@ -343,7 +387,7 @@ func writeOutput(c *config, states []*progState, elapsed time.Duration) error {
 			} else {
 				ms = progoracle.CheckPar(p, sc, o)
 			}
-			report(st, fmt.Sprint(sc.SID), ms)
+			report(st, fmt.Sprint(sc.SID), append(ms, mms...))
 		}
 	}
 
@@ -356,9 +400,9 @@ func writeOutput(c *config, states []*progState, elapsed time.Duration) error {
 	for _, s := range sk {
 		ss = append(ss, fmt.Sprintf("%s:%d", s, streams[s]))
 	}
-	summary := fmt.Sprintf("summary programs=%d streams=%s accept=%d reject=%d scenarios=%d calls=%d X=%d XK=%d xprops=%s forms=%s shapes=%s opts=%s diags=%s seconds=%.1f",
+	summary := fmt.Sprintf("summary programs=%d streams=%s accept=%d reject=%d scenarios=%d calls=%d X=%d XK=%d xprops=%s forms=%s shapes=%s opts=%s diags=%s seconds=%.1f modifier=%d/%d",
 		len(states), strings.Join(ss, ","), accept, reject, scenarios, calls, nX, nXK,
-		mapStr(xByProp), mapStr(forms), mapStr(shapes), mapStr(opts), mapStr(diags), elapsed.Seconds())
+		mapStr(xByProp), mapStr(forms), mapStr(shapes), mapStr(opts), mapStr(diags), elapsed.Seconds(), modProgs, modScen)
 	emit("%s", summary)
 	fmt.Println(summary)
 	return nil
@@ -471,6 +515,22 @@ func coverage(p *ps.Program, forms, shapes, opts map[string]int) {
 	if p.Generic {
 		opts["generic"]++
 	}
+	if p.Quirk != "" {
+		opts["quirk-"+p.Quirk]++
+	}
+	if p.ModSub {
+		opts["modsubset"]++
+	}
+	for _, sl := range p.Slices {
+		if sl.Elem != sl.Param {
+			opts["slice-elem-ne-param"]++
+		}
+	}
+	for _, m := range p.Maps {
+		if m.Key != m.KParam || m.Val != m.VParam {
+			opts["map-elem-ne-param"]++
+		}
+	}
 	if p.Site != "" && p.Site != "assign" {
 		opts["site-"+p.Site]++
 	}
@@ -549,6 +609,9 @@ func checkStatic(st *progState) []progoracle.Mismatch {
 	}
 	if !st.Deterministic {
 		add("generated file differs between runs")
+	}
+	if st.P.ModSub && !st.ModCompiles {
+		add("modifier mode: %s", st.ModErr)
 	}
 	if st.SourceMapSame == "0" {
 		add("source-map output differs from base output beyond comments")
